@@ -1122,9 +1122,13 @@ class SymEval:
                 if key in base.attrs:
                     return base.attrs[key]
             fn, cls = base.lookup(attr)
+            if fn is None and attr.startswith('__') and not attr.endswith('__') and base.cls is not None:
+                fn, cls = base.lookup('_%s%s' % (base.cls.name, attr))
             if fn is not None:
                 if any(norm(d) == 'property' for d in fn.decorator_list):
                     return self.call_fn(fn, [base], {}, p)
+                if any(norm(d) == 'staticmethod' for d in fn.decorator_list):
+                    return Closure(fn, self)
                 return Closure(fn, self, base)
             if self.try_depth > 0 and base.cls is not None and attr.startswith('__') and not attr.endswith('__'):
                 # a private attribute that only the function being evaluated ever assigns: absent until that assignment ran (AttributeError, as in Python)
@@ -1271,6 +1275,9 @@ class SymEval:
         v = self.ev(s, p)
         if isinstance(v, sp.Integer):
             return int(v)
+        if isinstance(v, slice):
+            g = lambda b: None if b is None else int(b)
+            return slice(g(v.start), g(v.stop), g(v.step))
         if isinstance(v, tuple) and any(is_arr(x) for x in v):
             return tuple(_intidx(x) for x in v)            # multi-dimensional fancy index, e.g. the tuple returned by np.where
         if is_arr(v) and v.dtype == object:
@@ -1296,6 +1303,18 @@ class SymEval:
         for t in tys:
             key = norm(t)
             if key not in self._TYPES:
+                # a class of the repository: decided for model objects that say what they are
+                short = key.split('.')[-1]
+                if isinstance(v, SymObj) and v.mro:
+                    out = out or any(c.name == short for c in v.mro)
+                    continue
+                if isinstance(v, PyStub) and hasattr(v, '_isa'):
+                    out = out or short in v._isa
+                    continue
+                if v is None or isinstance(v, (bool, int, float, str, list, tuple, dict, sp.Basic, np.ndarray)):
+                    if short in ('OrderedDict',) and isinstance(v, dict):
+                        out = True
+                    continue          # a plain value is not an instance of a repository class
                 raise Opaque('isinstance against %s' % key)
             if isinstance(v, self._TYPES[key]) and not (isinstance(v, bool) and key != 'bool'):
                 out = True
